@@ -226,6 +226,10 @@ func (w *ammWorld) hook(op, class string, f func()) {
 		}
 	}
 	w.out.Emit(fmt.Sprintf("chk c18.recipients tag=%s.recipients %s %d %d%s %s", class, class, lock, nch, sb.String(), pre), "true", "chk.recipients", false)
+	// epoch hook in wallet mode, no blocked recipient in this world: every eligible provider got its share
+	if class == "epoch" && len(w.blocked) == 0 && w.app.ClpKeeper.GetRewardsParams(w.ctx).RewardsDistribute {
+		w.out.Emit(fmt.Sprintf("chk c18.l1bucket tag=epoch.bucket %d %d%s %s", lock, nch, sb.String(), pre), "true", "chk.l1bucket", nch > 0)
+	}
 }
 
 func (w *ammWorld) setHeight(h int64) {
@@ -941,6 +945,27 @@ func init() {
 			for i := 0; i < 8 && !w.halted; i++ {
 				w.opEndBlock()
 			}
+		}
+		// D10: more providers than one page of the SDK's default pagination (100): every eligible provider of the
+		// pool is paid its share of the bucket, whatever its place in store order
+		for _, dist := range []bool{true, false} {
+			const nProv = 130
+			w := newAmmWorld(rng, out, nProv, -1)
+			for _, u := range w.users {
+				w.fund(u, "rowan", e18(1000000))
+				w.fund(u, "cusdc", e18(1000000))
+			}
+			w.setDistribute(dist)
+			w.opCreate(w.users[0], "cusdc", e18(1000), e18(1000))
+			for i := 1; i < nProv; i++ {
+				w.opAdd(w.users[i], "cusdc", e18(int64(1+i%7)), e18(int64(1+i%7)))
+			}
+			w.opBucket(w.users[0], "cusdc", e18(500))
+			w.setLock(3)
+			w.setHeight(9)
+			w.opAdd(w.users[3], "cusdc", e18(1), e18(1)) // refreshed: inside the lock period at the epoch end
+			w.setHeight(15)
+			w.opEpoch()
 		}
 		// D9: a dust provider (its pro-rata refund truncates to zero on both sides) at decommission time, then the
 		// pool is created again by somebody else: no provider record may survive the decommission
